@@ -76,7 +76,7 @@ def r1_r2_cross_val(ctx):
         if p.exit != "return":
             continue
         n += 1
-        tag = ",".join("%s" % v for _c, v in p.conds)
+        tag = Q.tags(p.conds)
         disp = [e for e in p.events if e.kind == "call" and e.data[0][1][0] == "call" and callee(e.data[0][1]) == "verde.utils.dispatch"]
         if len(disp) != 1:
             ctx.add("R1", "%s|one-dispatched-call|%s" % (qn, tag), "UNDECIDED", "expected one dispatched worker call", fn=qn)
